@@ -188,7 +188,19 @@ REV_MODES = ["bytesio", "binfile", "textfile", "bytesio", "rawfile", "textfile",
              "rwfile"]
 JSONL_MODES = ["bytesio", "binfile", "textfile", "bytesio", "rawfile", "textfile", "latin1file", "rwfile"]
 UTF8_MODES = ("textfile", "enc_utf8")
-TEXT_MODES = ("textfile", "enc_utf8", "latin1file", "enc_latin1")
+SBCS_MODES = tuple("sbcs:%d" % i for i in range(len(c19_breaks.SBCS)))       # real text files in cp1252, koi8-r, ...
+TEXT_MODES = ("textfile", "enc_utf8", "latin1file", "enc_latin1") + SBCS_MODES
+_SBCS_TABLES = None
+
+
+def sbcs_defined(mode, content):
+    """drop the bytes the codec of an sbcs mode leaves undefined (used for JSONL, where forward text iteration would
+    raise in the middle of the file)."""
+    global _SBCS_TABLES
+    if _SBCS_TABLES is None:
+        _SBCS_TABLES = c19_breaks.sbcs_tables()
+    row = _SBCS_TABLES[int(mode.split(":")[1])]
+    return [b for b in content if row[b] is not None]
 
 
 def gen_content(rng, n, mode, lone_cr, invalid):
@@ -231,7 +243,7 @@ def pick_blocksizes(rng, n):
 
 
 def gen_rev(rng, tier):
-    mode = rng.choice(REV_MODES)
+    mode = rng.choice(REV_MODES) if rng.random() < 0.85 else rng.choice(SBCS_MODES)
     r = rng.random()
     lone_cr = rng.random() < 0.10
     invalid = mode in UTF8_MODES and rng.random() < 0.04
@@ -255,7 +267,7 @@ def gen_rev(rng, tier):
             while 0 < pos < len(c) and 0x80 <= c[pos] < 0xc0:     # keep the cursor on a character boundary
                 pos -= 1
     case = {"k": "rev", "runs": runs, "mode": mode, "pos": pos, "bs": bs}
-    if pos is None and mode not in TEXT_MODES[:1] + ("latin1file",) and rng.random() < 0.25:
+    if pos is None and mode not in ("textfile", "latin1file") + SBCS_MODES and rng.random() < 0.25:
         # default preseek=True must ignore where the cursor happens to be
         case["pre_cursor"] = rng.randint(0, len(expand(runs)))
     return case
@@ -273,7 +285,7 @@ WS_TRAIL = [[], [], [], [32], [9], [32, 32]]
 
 
 def gen_jsonl(rng, tier):
-    mode = rng.choice(JSONL_MODES)
+    mode = rng.choice(JSONL_MODES) if rng.random() < 0.85 else rng.choice(SBCS_MODES)
     ie = rng.random() < 0.6
     lone_cr = rng.random() < 0.05
     nlines = rng.choice([0, 1, 1, 2, 3, 4, 5, 6, 8])
@@ -335,8 +347,11 @@ def gen_jsonl(rng, tier):
                 runs.append([[10], 1])
                 runs[-2][1] = (pad - 1) % 4096
             runs = [r for r in runs if r[1]]
+    if mode in SBCS_MODES:
+        runs = [[sbcs_defined(mode, r[0]), r[1]] for r in runs]
+        runs = [r for r in runs if r[0]]
     case = {"k": "jsonl", "runs": runs, "mode": mode, "ie": ie}
-    if mode not in ("textfile", "latin1file") and rng.random() < 0.2:
+    if mode not in TEXT_MODES and rng.random() < 0.2:
         case["pre_cursor"] = rng.randint(0, len(expand(runs)))
     return case
 
@@ -409,6 +424,8 @@ class _Files:
             return open(self.path, "r+b")                      # io.BufferedRandom
         if self.mode == "latin1file":
             return open(self.path, "r", encoding="latin-1")
+        if self.mode in SBCS_MODES:
+            return open(self.path, "r", encoding=c19_breaks.SBCS[int(self.mode.split(":")[1])])
         return open(self.path, "r", encoding="utf-8")
 
     def close(self):
@@ -543,6 +560,8 @@ def run_impl(case):
 # rendering
 # --------------------------------------------------------------------------
 def _mode(m):
+    if m in SBCS_MODES:
+        return "(sbcs %d%%nat)" % int(m.split(":")[1])
     return {"textfile": "TextUtf8", "enc_utf8": "TextUtf8", "latin1file": "TextLatin1",
             "enc_latin1": "TextLatin1"}.get(m, "Binary")
 
@@ -664,7 +683,8 @@ def distribution(d, case, obs):
             inc("split_has_sep_ctl(spec validation skipped)")
         d["split_max_len"] = max(d.get("split_max_len", 0), len(content))
         return
-    inc("mode:" + case["mode"])
+    inc("mode:" + (case["mode"] if case["mode"] not in SBCS_MODES
+                    else "textfile:" + c19_breaks.SBCS[int(case["mode"].split(":")[1])]))
     edges = set(_edges(case, content))
     if any(e < len(content) and content[e] == 10 and content[e - 1] == 13 for e in edges):
         inc(k + "_edge_inside_CRLF")
